@@ -55,8 +55,29 @@ WrongView(q, resp) ==
      /\ \A L \in cl.locs : JudgeAt(recs, L, q, resp) # "ok"
      /\ \E L \in cl.locs : \E V \in WrongViews(recs, L) : V # Visible(recs, L) /\ JudgeV(V, q, resp) = "ok"
 
+\* ---- C19: what the handler told its Stats and Logger while it served one query, against the response it sent
+Cnt(c, k) == IF k \in DOMAIN c THEN c[k] ELSE 0
+One(b) == IF b THEN 1 ELSE 0
+JudgeCounters(r, cache) ==
+  LET c == r.counters IN
+  IF Cnt(c, "DNS_queries") # 1 THEN "C19:query-counter"
+  ELSE IF r.typekeys # 1 THEN "C19:type-counter"
+  ELSE IF ~r.written THEN "ok"                                          \* a bare failure: not a composed response
+  ELSE IF r.nlog # 1 \/ r.nlogfailed # 0 THEN "C19:logger-calls"
+  ELSE IF ~r.logsame THEN "C19:logged-message-differs"
+  ELSE IF Cnt(c, "DNS_queries_notauthoritative") # One(~r.aa) THEN "C19:notauthoritative-counter"
+  ELSE IF Cnt(c, "DNS_queries_nxdomain") # One(r.rcode = 3) THEN "C19:nxdomain-counter"
+  ELSE IF Cnt(c, "DNS_queries_refused") # One(r.rcode = 5) THEN "C19:refused-counter"
+  ELSE IF Cnt(c, "DNS_queries_badvers") # One(r.rcode = 16) THEN "C19:badvers-counter"
+  ELSE IF Cnt(c, "DNS_queries_nodata") # One(r.rcode = 0 /\ r.an = <<>>) THEN "C19:nodata-counter"
+  ELSE IF Cnt(c, "DNS_cache.hit") + Cnt(c, "DNS_cache.missed") + Cnt(c, "DNS_cache.expired") # One(cache /\ r.rcode # 16) THEN "C19:cache-counter"
+  ELSE IF Cnt(c, "DNS_location.ecs") + Cnt(c, "DNS_location.empty") + Cnt(c, "DNS_location.default") + Cnt(c, "DNS_location.fallback_default")
+          + Cnt(c, "DNS_location.resolver") # One(r.rcode # 16) THEN "C19:location-counter"
+  ELSE "ok"
+
 CheckQ(e) ==
   /\ \A b \in DOMAIN e.r : Report(b, JudgeResp(e.q, e.r[b]))
+  /\ e.rec => \A b \in DOMAIN e.r : Report(b, JudgeCounters(e.r[b], e.cache))
   /\ \A b \in DOMAIN e.r : WrongView(e.q, e.r[b]) => PrintT(<<"REJECT", l, b, "C04:wrong-visibility">>)
   /\ \A b1, b2 \in DOMAIN e.r :
         (b1 # b2 /\ ~Same(e.r[b1], e.r[b2], e.q.exact)) => PrintT(<<"REJECT", l, b1, "C02:backends-differ", b2>>)
